@@ -3,8 +3,13 @@
 tier="${1:-quick}"; shift
 ids=("$@"); [ ${#ids[@]} -eq 0 ] && ids=(C01 C02 C03 C04 C05 C06 C07 C08 C09 C10 C11 C12 C13 C14 C15 C16 C17 C18 C19 C20)
 here="$(cd "$(dirname "${BASH_SOURCE[0]}")/.." && pwd)"; cd "$here"
+worst=0
 for p in "${ids[@]}"; do
   out=$(./check "$p" --tier "$tier" 2>&1); rc=$?
   echo "rc=$rc $(echo "$out" | tail -1)"
-  [ $rc -ne 0 ] && echo "$out" | grep -E "VIOLATION|kind=|INCONCLUSIVE|KNOWN" | head -8
+  if [ $rc -ne 0 ]; then
+    echo "$out" | grep -E "VIOLATION|kind=|INCONCLUSIVE|KNOWN" | head -8
+    [ $rc -gt $worst ] && worst=$rc
+  fi
 done
+exit $worst
